@@ -1052,7 +1052,7 @@ impl SolarDay {
       y += 1;
       i = 0;
     }
-    let mut term: SolarTerm = SolarTerm::from_index(y, i as isize);
+    let mut term: SolarTerm = SolarTerm::from_index(y, i as isize + 1);
     let mut day: SolarDay = term.get_julian_day().get_solar_day();
     while self.is_before(day) {
       term = term.next(-1);
@@ -1554,7 +1554,7 @@ impl SolarTime {
       y += 1;
       i = 0;
     }
-    let mut term: SolarTerm = SolarTerm::from_index(y, i as isize);
+    let mut term: SolarTerm = SolarTerm::from_index(y, i as isize + 1);
     while self.is_before(term.get_julian_day().get_solar_time()) {
       term = term.next(-1);
     }
